@@ -1825,6 +1825,464 @@ def compare_engines(py_fn, c_decl):
     return A, ia, B, ib
 
 
+# =============================================================================
+# One iteration of the pass over the sorted data, path by path
+# =============================================================================
+# The effect comparison above needs both engines in the four-construct form.  Two necessary conditions of the property are
+# about exactly the constructs that form does not have, so they are decided here on a tolerant version of the same
+# lowering (break / return / goto / continue kept as statements, an expression the lowering does not know becomes an opaque
+# symbol), engine by engine, by enumerating the paths through ONE iteration of every top-level loop with the loop carried
+# variables as symbols (H_<name>: the value at the head of the iteration) and affine counters in closed form:
+#   pass-visits-every-sorted-datum   rev is "nbin+1 offsets followed by the sorted in-range indices": the store
+#       rev[i + nbin + 1] = s[i] must happen for every position i of the sort index.  A way out of the loop that holds that
+#       store (break, return, goto, or a conjunct of the loop condition) and is taken under a condition on the data leaves
+#       the remaining positions unvisited: their indices are never stored, whatever the data are sorted by.
+#   counted-bin-is-the-bin-of-the-datum   the bin a datum is counted in is trunc((x - min)/binsize) of that datum.  Where
+#       the index of the increment is a loop carried value V instead (a shortcut: "equal to the remembered datum W, so reuse
+#       its bin"), V must be the bin of W whenever the shortcut is taken: on every path of the iteration the pair (W, V) is
+#       left alone or set to (current datum, its bin).  A path that sets W to the current datum and leaves V alone breaks
+#       the pairing: the next equal datum is counted in the bin of an earlier one.
+class _Exit:
+    def __init__(s, kind, line):
+        s.kind, s.line = kind, line
+
+
+class _Other:
+    def __init__(s, line, text):
+        s.line, s.text = line, text
+
+
+_TOL = (NotImplementedError, KeyError, AssertionError, IndexError, TypeError, AttributeError)
+
+
+def _tol_py_expr(e):
+    try:
+        return sibling.py_expr(e)
+    except _TOL:
+        return ("opaque", norm(e)[:80])
+
+
+def _tol_c_expr(n):
+    try:
+        return sibling.c_expr(n)
+    except _TOL:
+        return ("opaque", cfront.render(n)[:80])
+
+
+def _tol_py(body):
+    out = []
+    for st in body:
+        ln = getattr(st, "lineno", None)
+        if isinstance(st, ast.Expr) and isinstance(st.value, ast.Constant) or isinstance(st, ast.Pass):
+            continue
+        if isinstance(st, ast.Assign) and len(st.targets) == 1 and isinstance(st.targets[0], ast.Name):
+            x = sibling.Assign(st.targets[0].id, _tol_py_expr(st.value))
+        elif isinstance(st, ast.Assign) and len(st.targets) == 1 and isinstance(st.targets[0], ast.Subscript):
+            t = st.targets[0]
+            x = sibling.Store(_tol_py_expr(t.value), ("opaque", norm(t.slice)) if isinstance(t.slice, ast.Slice) else _tol_py_expr(t.slice), _tol_py_expr(st.value))
+        elif isinstance(st, ast.AugAssign) and isinstance(st.op, (ast.Add, ast.Sub)) and isinstance(st.target, (ast.Name, ast.Subscript)):
+            op = "+" if isinstance(st.op, ast.Add) else "-"
+            t = st.target
+            if isinstance(t, ast.Name):
+                x = sibling.Assign(t.id, ("bin", op, ("var", t.id), _tol_py_expr(st.value)))
+            else:
+                a, i = _tol_py_expr(t.value), ("opaque", norm(t.slice)) if isinstance(t.slice, ast.Slice) else _tol_py_expr(t.slice)
+                x = sibling.Store(a, i, ("bin", op, ("rd", a, i), _tol_py_expr(st.value)))
+        elif isinstance(st, ast.If):
+            x = sibling.If(_tol_py_expr(st.test), _tol_py(st.body), _tol_py(st.orelse))
+        elif isinstance(st, ast.While) and not st.orelse:
+            x = sibling.While(_tol_py_expr(st.test), _tol_py(st.body))
+        elif isinstance(st, (ast.Break, ast.Return, ast.Continue, ast.Raise)):
+            x = _Exit({ast.Break: "break", ast.Return: "return", ast.Continue: "continue", ast.Raise: "raise"}[type(st)], ln)
+        else:
+            x = _Other(ln, norm(st)[:80])
+        x.line = ln
+        out.append(x)
+    return out
+
+
+def _tol_c(nodes):
+    out = []
+    for st in nodes:
+        if not isinstance(st, dict) or not st.get("kind"):
+            continue
+        k, ln = st["kind"], st.get("line")
+        x = None
+        if k == "DeclStmt":
+            for v in st.get("inner", []) or []:
+                init = [c for c in v.get("inner", []) or [] if isinstance(c, dict) and "kind" in c]
+                if init and v.get("name") and "*" not in v.get("type", {}).get("qualType", ""):
+                    a = sibling.Assign(v["name"], _tol_c_expr(init[-1]))
+                    a.line = ln
+                    out.append(a)
+            continue
+        if k in ("NullStmt", "CallExpr"):
+            if k == "CallExpr" and not (cfront.callee_name(st) or "Py").startswith(("Py", "_Py", "Npy", "npy_")):
+                x = _Other(ln, cfront.render(st)[:80])
+            else:
+                continue
+        elif k == "CompoundStmt":
+            out.extend(_tol_c(st.get("inner", []) or []))
+            continue
+        elif k == "BinaryOperator" and st.get("opcode") == "=":
+            lhs = sibling.c_unwrap(st["inner"][0])
+            if lhs.get("kind") == "DeclRefExpr":
+                x = sibling.Assign(lhs["referencedDecl"]["name"], _tol_c_expr(st["inner"][1]))
+            else:
+                l = _tol_c_expr(lhs)
+                x = sibling.Store(l[1], l[2], _tol_c_expr(st["inner"][1])) if l[0] == "rd" else _Other(ln, cfront.render(st)[:80])
+        elif k == "UnaryOperator" and st.get("opcode") in ("++", "--") and sibling.c_unwrap(st["inner"][0]).get("kind") == "DeclRefExpr":
+            nm = sibling.c_unwrap(st["inner"][0])["referencedDecl"]["name"]
+            x = sibling.Assign(nm, ("bin", "+" if st["opcode"] == "++" else "-", ("var", nm), ("num", 1)))
+        elif k == "IfStmt":
+            c = [y for y in st["inner"] if isinstance(y, dict) and y.get("kind")]
+            acc = []
+            sibling.find_calls(c[0], "PyArg_ParseTuple", acc)
+            if not acc:
+                sibling.find_calls(c[0], "_PyArg_ParseTuple_SizeT", acc)
+            if acc:
+                n = 0
+                for a in acc[0]["inner"][3:]:
+                    a = sibling.c_unwrap(a)
+                    if a.get("kind") == "UnaryOperator" and a.get("opcode") == "&":
+                        y = sibling.Assign(sibling.c_unwrap(a["inner"][0])["referencedDecl"]["name"], ("var", "@P%d" % n))
+                        y.line = ln
+                        out.append(y)
+                        n += 1
+                continue
+            x = sibling.If(_tol_c_expr(c[0]), _tol_c(_c_block(c[1])) if len(c) > 1 else [], _tol_c(_c_block(c[2])) if len(c) > 2 else [])
+        elif k == "WhileStmt":
+            x = sibling.While(_tol_c_expr(st["inner"][0]), _tol_c(_c_block(st["inner"][1])))
+        elif k == "ForStmt" and len(st.get("inner", [])) == 5 and st["inner"][2].get("kind"):
+            init, _, test, inc, body = st["inner"]
+            out.extend(_tol_c(_c_split_comma(init)))
+            x = sibling.While(_tol_c_expr(test), _tol_c(_c_block(body)) + _tol_c(_c_split_comma(inc)))
+        elif k in ("BreakStmt", "ReturnStmt", "GotoStmt", "ContinueStmt"):
+            x = _Exit(k[:-4].lower(), ln)
+        else:
+            x = _Other(ln, cfront.render(st)[:80])
+        x.line = ln
+        out.append(x)
+    return out
+
+
+class _TolRed(sibling.Red):
+    """the symbolic reduction of vcheck.sibling, total: None is a constant of its own, an unknown expression a symbol of its own"""
+
+    def sx(s, e, env):
+        if e[0] == "none":
+            return sp.Symbol("NONE")
+        if e[0] == "opaque":
+            return sp.Symbol("?`%s`" % e[1])
+        try:
+            return sibling.Red.sx(s, e, env)
+        except _TOL + (sp.SympifyError, ValueError, ZeroDivisionError):
+            return sp.Symbol("?`%s`" % (e,))
+
+    def truth(s, e, env):
+        try:
+            return _flag_norm(sibling.Red.truth(s, e, env))
+        except _TOL + (sp.SympifyError, ValueError):
+            return sp.Ne(sp.Symbol("?`%s`" % (e,)), 0)
+
+
+def _flag_norm(x):
+    """a 0/1 flag that was set under a condition c, tested for (non-)zero, is c (not c)"""
+    def fix(e):
+        pw = e.args[0]
+        if isinstance(pw, sp.Piecewise) and e.args[1] == 0 and len(pw.args) == 2 and pw.args[0][0] == 1 and pw.args[1][0] == 0 and pw.args[1][1] == True:
+            return pw.args[0][1] if isinstance(e, sp.Ne) else sp.Not(pw.args[0][1])
+        return e
+    return x.replace(lambda e: isinstance(e, (sp.Ne, sp.Eq)), fix) if hasattr(x, "replace") else x
+
+
+def _feasible(conds):
+    try:
+        return sp.And(*conds) != sp.false
+    except Exception:
+        return True
+
+
+class _IterPath:
+    __slots__ = ("env", "conds", "events", "exit", "other")
+
+    def __init__(s, env, conds=(), events=(), exit=None, other=()):
+        s.env, s.conds, s.events, s.exit, s.other = env, list(conds), list(events), exit, list(other)
+
+    def fork(s, cond=None):
+        p = _IterPath(dict(s.env), s.conds, s.events, s.exit, s.other)
+        if cond is not None:
+            p.conds.append(cond)
+        return p
+
+
+def _all_stores(stmts, acc):
+    for st in stmts:
+        if isinstance(st, sibling.Store):
+            acc.append(st)
+        elif isinstance(st, sibling.If):
+            _all_stores(st.t, acc)
+            _all_stores(st.f, acc)
+        elif isinstance(st, sibling.While):
+            _all_stores(st.b, acc)
+    return acc
+
+
+def _iter_paths(red, stmts, start, limit=400):
+    """the paths through a statement list: [_IterPath]; events are (array, index, value, conditions so far, in an inner loop?, line)"""
+    paths = [start]
+    for st in stmts:
+        new = []
+        for p in paths:
+            if p.exit is not None:
+                new.append(p)
+            elif isinstance(st, sibling.Assign):
+                p.env[st.n] = red.sx(st.e, p.env)
+                new.append(p)
+            elif isinstance(st, sibling.Store):
+                p.events.append((red.arr(st.a, p.env), red.sx(st.i, p.env), red.sx(st.e, p.env), tuple(p.conds), False, getattr(st, "line", None)))
+                new.append(p)
+            elif isinstance(st, sibling.If):
+                c = red.truth(st.c, p.env)
+                if c == sp.true:
+                    new.extend(_iter_paths(red, st.t, p, limit))
+                elif c == sp.false:
+                    new.extend(_iter_paths(red, st.f, p, limit))
+                else:
+                    for arm, q in ((st.t, p.fork(c)), (st.f, p.fork(sp.Not(c)))):
+                        if _feasible(q.conds):
+                            new.extend(_iter_paths(red, arm, q, limit))
+            elif isinstance(st, sibling.While):
+                # an inner loop is not unrolled: what it assigns is unknown afterwards, its stores are recorded as they read inside
+                inner = dict(p.env)
+                for v in red.assigned(st.b, set()):
+                    inner[v] = sp.Symbol("?inner_%s" % v)
+                for x in _all_stores(st.b, []):
+                    p.events.append((red.arr(x.a, inner), red.sx(x.i, inner), red.sx(x.e, inner), tuple(p.conds), True, getattr(x, "line", None)))
+                for v in red.assigned(st.b, set()):
+                    p.env[v] = sp.Symbol("?after_%s_%s" % (v, getattr(st, "line", "")))
+                new.append(p)
+            elif isinstance(st, _Exit):
+                p.exit = st
+                new.append(p)
+            else:
+                p.other.append(st)
+                new.append(p)
+        paths = new
+        if len(paths) > limit:
+            raise NotImplementedError("more than %d paths through one iteration" % limit)
+    return paths
+
+
+class _PassLoop:
+    """one top-level loop of an engine: paths of one iteration, entry values, condition"""
+    __slots__ = ("node", "entry", "cond", "paths", "line", "counters")
+
+
+def _pass_loops(red, stmts, env, out):
+    """the loops of a statement list that are not inside another loop (arms of top-level tests included), with the values at their entry"""
+    for st in stmts:
+        if isinstance(st, sibling.If):
+            _pass_loops(red, st.t, dict(env), out)
+            _pass_loops(red, st.f, dict(env), out)
+        elif isinstance(st, sibling.While):
+            L = _PassLoop()
+            L.node, L.entry, L.line = st, dict(env), getattr(st, "line", None)
+            carried = red.assigned(st.b, set())
+            benv = dict(env)
+            L.counters = {}
+            k = sp.Symbol("k", integer=True)
+            for v in sorted(carried):
+                tops = [x for x in st.b if isinstance(x, sibling.Assign) and x.n == v]
+                n_all = _count_assign(st.b, v)
+                if n_all == 1 and len(tops) == 1 and tops[0].e[0] == "bin" and tops[0].e[1] in "+-" and tops[0].e[2] == ("var", v) and tops[0].e[3][0] == "num" and v in env:
+                    step = tops[0].e[3][1] * (1 if tops[0].e[1] == "+" else -1)
+                    benv[v] = env[v] + step * k
+                    L.counters[v] = tops[0]
+                else:
+                    benv[v] = sp.Symbol("H_%s" % v)
+            L.cond = red.truth(st.c, benv)
+            body = [x for x in st.b if not any(x is c for c in L.counters.values())]
+            L.paths = _iter_paths(red, body, _IterPath(benv))
+            out.append(L)
+        try:
+            sibling.Red.run(red, [st], env, [], [])
+        except _TOL + (sp.SympifyError, ValueError):
+            for v in red.assigned([st], set()):
+                env[v] = sp.Symbol("?after_%s" % v)
+    return out
+
+
+def _count_assign(stmts, v):
+    n = 0
+    for x in stmts:
+        if isinstance(x, sibling.Assign) and x.n == v:
+            n += 1
+        elif isinstance(x, sibling.If):
+            n += _count_assign(x.t, v) + _count_assign(x.f, v)
+        elif isinstance(x, sibling.While):
+            n += _count_assign(x.b, v)
+    return n
+
+
+def _rd_of(e, role):
+    """the reads rd(role, .) inside a term"""
+    return [x for x in _rd_atoms(e) if str(x.args[0]) == role]
+
+
+def _datum_atoms(e):
+    """the terms rd(P0, rd(P2, X)) inside e: a datum reached through the sort index"""
+    return [x for x in _rd_of(e, "P0") if isinstance(x.args[1], sp.core.function.AppliedUndef) and x.args[1].func.__name__ == "rd" and str(x.args[1].args[0]) == "P2"]
+
+
+def _bin_of(d):
+    return sp.Function("trunc")((d - sp.Symbol("P1")) / sp.Symbol("P3"))
+
+
+def _same(a, b):
+    try:
+        return str(nf(a)) == str(nf(b))
+    except Exception:
+        return False
+
+
+def _heads(e):
+    return {x for x in e.free_symbols if x.name.startswith("H_")} if isinstance(e, sp.Basic) else set()
+
+
+def _unknowns(e):
+    return {x for x in e.free_symbols if x.name.startswith("?")} if isinstance(e, sp.Basic) else set()
+
+
+def _cond_text(conds):
+    out = []
+    for c in conds:
+        try:
+            out.append(str(nf(c)))
+        except Exception:
+            out.append(str(c))
+    t = " and ".join(out) or "always"
+    for a, b in (("size(P4)", "nbin"), ("size(P2)", "s.size"), ("P0", "data"), ("P1", "min"), ("P2", "s"), ("P3", "binsize"), ("P4", "hist"), ("P5", "rev")):
+        t = t.replace(a, b)
+    return t
+
+
+def pass_rules(chk, tag, ir, roles, where_of):
+    """the two per-iteration rules (section comment) on one engine; tag 'py' / 'c'; where_of(line) -> location text"""
+    red = _TolRed(roles)
+    try:
+        loops = _pass_loops(red, ir, {}, [])
+    except NotImplementedError as e:
+        chk.ob("R05.2", "engine::%s::pass-visits-every-sorted-datum" % tag, None, where_of(None), "the iterations of the engine's loops could not be enumerated (%s)" % e)
+        return
+    P4, P5 = sp.Symbol("P4"), sp.Symbol("P5")
+    norev = sp.Not(sp.Function("notnone")(P5) > 0)
+
+    def index_stores(L, inner=None):
+        return [ev for p in L.paths for ev in p.events if ev[0] == P5 and _rd_of(ev[2], "P2") and (inner is None or ev[4] == inner)]
+
+    # ---- every position of the sort index is visited ---------------------------------------------
+    vs, why = [], []
+    for L in loops:
+        evs = [ev for p in L.paths for ev in p.events if ev[0] in (P4, P5)]
+        if not evs:
+            continue
+        ways = [(p.exit.kind, p.exit.line, p.conds, p) for p in L.paths if p.exit is not None and p.exit.kind in ("break", "return", "goto")]
+        catoms = red.atoms([L.cond])
+        for a in catoms:
+            if _rd_atoms(a) or _heads(a) or _unknowns(a):
+                ways.append(("loop condition", L.line, [sp.Not(a)], None))
+        if not ways:
+            vs.append(True)
+            continue
+        idx = index_stores(L, inner=False)
+        for kind, line, conds, p in ways:
+            atoms = red.atoms(list(conds))
+            on_data = [a for a in atoms if _rd_atoms(a) or _heads(a)]
+            if not on_data or any(_unknowns(a) for a in atoms):
+                vs.append(None)               # a bound on the counter spelled as an exit, or a condition that is not understood
+                continue
+            if not idx or any(_same(a, norev) for a in atoms):
+                vs.append(None)               # no reverse indices are lost on this way out; whether counts are is not decided here
+                continue
+            made_up = [ev for M in loops if M is not L for ev in index_stores(M)] + ([ev for ev in p.events if ev[4] and ev[0] == P5 and _rd_of(ev[2], "P2")] if p is not None else [])
+            if made_up or (p is not None and p.other) or any(isinstance(x, _Other) for x in ir):
+                vs.append(None)               # the indices of the remaining positions may be stored by something else
+                continue
+            vs.append(False)
+            before = p is not None and not any(ev[0] == P5 and _rd_of(ev[2], "P2") and not ev[4] for ev in p.events)
+            why.append((line, "the loop over the sort index is left by `%s` (line %s) when %s -- a condition on the data, not on the position: the positions after that one are never visited%s, so their "
+                        "sort indices are not stored at rev[i + nbin + 1] (the index area keeps its zeros there) although the data lie within the limits"
+                        % (kind, line, _cond_text(on_data), " and the store for the current position is skipped as well" if before else "")))
+    v = _verdict(vs) if vs else None
+    chk.ob("R05.2", "engine::%s::pass-visits-every-sorted-datum" % tag, v, where_of(why[0][0] if why and v is False else None),
+           "%severy position of the (limit-filtered) sort index is visited and its index stored when reverse indices are requested: no way out of the pass depends on the data"
+           % ("; ".join(w for _, w in why[:2]) + " -- rule: " if why and v is False else ""))
+    # ---- the bin a datum is counted in is the bin of that datum -------------------------------------
+    vs, why = [], []
+    for L in loops:
+        for p in L.paths:
+            for arr, idx, val, conds, inner, line in p.events:
+                if arr != P4 or not any(_same(x.args[1], idx) for x in _rd_of(val, "P4")):
+                    continue                  # not an increment of hist[idx]
+                if inner:
+                    vs.append(None)
+                    continue
+                if not _heads(idx) and not _unknowns(idx):
+                    vs.append(True)           # computed from what this iteration reads (that it is trunc((x - min)/binsize): engine::one-increment-per-datum-in-its-bin)
+                    continue
+                if not (idx.is_Symbol and idx.name.startswith("H_")):
+                    vs.append(None)
+                    continue
+                r, msg = _reused_bin(red, L, idx, conds)
+                vs.append(r)
+                if r is False:
+                    why.append((line, msg))
+    v = _verdict(vs) if vs else None
+    chk.ob("R05.2", "engine::%s::counted-bin-is-the-bin-of-the-datum" % tag, v, where_of(why[0][0] if why and v is False else None),
+           "%son every path through one iteration the index of the increment is computed from the datum visited in that iteration, not carried over from an earlier one -- or it is a "
+           "remembered bin that is paired with a remembered datum equal to the current one" % ("; ".join(w for _, w in why[:2]) + " -- rule: " if why and v is False else ""))
+
+
+def _reused_bin(red, L, V, conds):
+    """the increment uses the loop carried value V as its index (a bin remembered from an earlier iteration).  (verdict, message)"""
+    ties = []
+    for c in red.atoms(list(conds)):
+        if isinstance(c, sp.Eq):
+            for a, b in ((c.lhs, c.rhs), (c.rhs, c.lhs)):
+                if b.is_Symbol and b.name.startswith("H_") and _datum_atoms(a) == [a]:
+                    ties.append((a, b))
+    if len(ties) != 1:
+        return None, ""
+    d, W = ties[0]
+    v, w = V.name[2:], W.name[2:]
+    verdicts = []
+    for p in L.paths:
+        if p.exit is not None and p.exit.kind != "continue":
+            continue
+        w1, v1 = p.env.get(w, W), p.env.get(v, V)
+        atoms = red.atoms(list(p.conds))
+        tie = lambda x: any(isinstance(c, sp.Eq) and {c.lhs, c.rhs} == {x, W} for c in atoms)
+        if w1 == W and v1 == V:
+            verdicts.append(True)
+        elif _datum_atoms(w1) == [w1] and _same(v1, _bin_of(w1)):
+            verdicts.append(True)
+        elif _datum_atoms(w1) == [w1] and v1 == V and tie(w1):
+            verdicts.append(True)
+        elif w1 == W and len(_datum_atoms(v1)) == 1 and _same(v1, _bin_of(_datum_atoms(v1)[0])) and tie(_datum_atoms(v1)[0]):
+            verdicts.append(True)
+        elif _datum_atoms(w1) == [w1] and v1 == V and not any(V in _heads(c) for c in atoms) and not p.other:
+            return False, ("the increment reuses the remembered bin `%s` when the datum equals the remembered datum `%s`, but on the path of an iteration where %s `%s` is set to the "
+                           "current datum while `%s` keeps the bin of an earlier datum (it is updated only when a datum is counted): a datum that is not in a valid bin "
+                           "is rejected at its first occurrence only, every later equal datum is counted in the bin of the last counted one"
+                           % (v, w, _cond_text(atoms), w, v))
+        else:
+            verdicts.append(None)
+    if L.entry.get(w) != sp.Symbol("NONE"):
+        verdicts.append(None)                 # the remembered datum must start as "none yet"
+    return _verdict(verdicts), ""
+
+
 def engines(chk, repo, py, cfn):
     """R05.1 (the engines perform the same guarded effects) and R05.2 (count / index pairing, on the Python engine's effects)"""
     try:
@@ -1835,7 +2293,18 @@ def engines(chk, repo, py, cfn):
             chk.assume(a)
     except NotImplementedError as e:
         raise AnalysisError("engine construct not supported by the desugaring: %s" % e)
-    EA, ia, EB, ib = compare_engines(py_l, cfn_l)
+    # ---- R05.2 per-iteration rules (they do not need the four-construct form) ---------
+    rel = py.where().rsplit(":", 1)[0]
+    pass_rules(chk, "py", _tol_py(py_l.body), {p: "P%d" % i for i, p in enumerate(_array_params(py_l))}, lambda ln: "%s:%s" % (rel, ln) if ln else py.where())
+    cw0 = "esutil/stat/chist_pywrap.c"
+    pass_rules(chk, "c", _tol_c((cfront.body_of(cfn_l) or {}).get("inner", []) or []), sibling.c_roles(cfn_l), lambda ln: "%s:%s" % (cw0, ln) if ln else "%s:%s" % (cw0, cfn.get("line", "?")))
+    try:
+        EA, ia, EB, ib = compare_engines(py_l, cfn_l)
+    except AnalysisError as e:
+        # the engines use a construct the effect comparison does not have: no verdict from R05.1 / the effect-set half of R05.2
+        # (the run ends without a verdict unless another rule has positively found a violation)
+        chk.ob("R05.1", "engines::effect-sets-found", None, py.where(), str(e))
+        return
     A, B = {e.key() for e in EA}, {e.key() for e in EB}
     chk.ob("R05.1", "engines::effect-sets-found", len(A) >= 5 and len(B) >= 5, py.where(), "guarded effects: python %d, C %d" % (len(A), len(B)))
     for x in sorted(A - B):
@@ -3603,9 +4072,19 @@ def limits(chk, repo):
                     if need <= _vacuous_limits(st, flags, lo_p, hi_p):
                         v_appl.append(True)
                     else:
-                        looked = [t for t, _ in st.conds if eval_test(_simp(t, flags), flags) is None and
-                                  _mentions(_simp(t, flags), {p for p, side in ((lo_p, "lo"), (hi_p, "hi")) if side in need})]
-                        v_appl.append(None if looked else False)
+                        # side by side: a given limit that is not known to be vacuous must at least have been looked at by a
+                        # condition of this path (then the path may know something about it that is not recognised here: no
+                        # verdict); a given limit whose value no condition of the path reads is simply not applied
+                        open_sides = need - _vacuous_limits(st, flags, lo_p, hi_p)
+                        und = [_simp(t, flags) for t, _ in st.conds if eval_test(_simp(t, flags), flags) is None]
+                        unread = sorted(p for p, side in ((lo_p, "lo"), (hi_p, "hi")) if side in open_sides and not any(_mentions(t, {p}) for t in und))
+                        v_appl.append(False if unread else None)
+                        if unread:
+                            given = " and ".join(p for p, g in ((lo_p, lo), (hi_p, hi)) if g is not None)
+                            on = " and ".join("%s`%s`" % ("" if truth else "not ", norm(_simp(t, flags))) for t, truth in st.conds
+                                              if eval_test(_simp(t, flags), flags) is None and _mentions(_simp(t, flags), {lo_p, hi_p}))
+                            why["appl"].add("with %s given, the unfiltered sort index reaches the engine on the path where %s: no condition of that path reads the value of %s, so data outside that limit stay in the sort index"
+                                            % (given, on or "no condition on the limits holds", " / ".join(unread)))
                     v_filt.append(True)
                     continue
                 b = pat.match("_S[_SEL]", _uncopied(w))
